@@ -65,6 +65,12 @@ def check(run):
     run.check(bool(closes) and q.on_all_paths(cc, closes), 'R4', 'close-connection-closes', H + '::close_connection', cc.loc(),
               'a path through close_connection() returns without closing m_connection (e.g. when the server is stopping): the client of a "Connection: close" request, or of a malformed one, never sees the end of the stream',
               'm_connection.close() on every path')
+    # session state does not leak into the next connection: the receive buffer and its fill count are reset on every path
+    clr = [c for c in cc.calls() if (c.get('callee') or '').split('::')[-1] == 'clear' and q.render(cc, c.get('obj')) == 'm_recv_buffer']
+    zero = [a.site for a in q.field_accesses(cc, {H + '::m_bytes_used'}) if a.kind == 'assign' and q.int_value(a.site.get('rhs')) == 0]
+    run.check(bool(clr) and bool(zero) and q.on_all_paths(cc, clr) and q.on_all_paths(cc, zero), 'R7', 'close-resets-session', H + '::close_connection', cc.loc(),
+              'close_connection() does not discard the unconsumed receive-buffer bytes (m_recv_buffer.clear(), m_bytes_used = 0) on every path: what one client left behind is parsed as the start of the next client\'s request',
+              'receive buffer and fill count reset on every path')
     # after stop: the acceptor close aborts the pending accept, on_accept must not re-arm
     for g, f in p11.ec_pairs(fx):
         if g.norm == A + '::close':
@@ -93,6 +99,9 @@ def check(run):
         er = [c for c in orr.calls() if (c.get('callee') or '').endswith('::erase') and q.render(orr, c.get('obj')) == 'm_recv_buffer']
         run.check(bool(er) and all(q.precedes(orr, parse[0], c) and 'req_len' in q.render(orr, c) for c in er), 'R4', 'request-consumed', H + '::on_read', orr.loc(),
                   'the parsed request is not removed from the receive buffer (it would be answered again)', 'erase(begin, begin + req_len) after the parse')
+        keys = {q.render(orr, c['args'][0]) for c in orr.calls() if (c.get('callee') or '').split('::')[-1] == 'find' and q.render(orr, c.get('obj')) in ('m_handlers', 'm_stall_handlers') and c.get('args')}
+        run.check(keys == {'req.path'}, 'R8', 'lookups-by-normalised-path', H + '::on_read', orr.loc(), 'the handler tables are not all looked up by the normalised path req.path (keys used: %s): a registered path requested with a query string or in non-normalised form misses its table' % sorted(keys),
+                  'both tables are looked up by req.path')
         w404 = [n for n in orr.all_nodes() if n['k'] == 'call' and q.callee_name(n) == 'sim::send_response' and q.int_value(n['args'][0]) == 404]
         run.check(bool(w404) and all(any(lookup_failed(orr, a, p, 'm_handlers') for a, p in q.guards_at(orr, n)) for n in w404), 'R5', '404-for-unknown', H + '::on_read', orr.loc(), '404 is not produced under the failed handler lookup', '404 only when no handler is registered')
         nl = [c for c in orr.calls() if q.callee_name(c) == H + '::read']
